@@ -444,6 +444,14 @@ class NodeContinue:
         pass
 
 
+def attachInfo(value, info):
+    # NULL, TRUE and FALSE are single objects shared by every interpreter of
+    # the process: the doc string of one definition must not show up wherever
+    # else the same constant is used
+    if value is not NULL and value is not TRUE and value is not FALSE:
+        value.info = info
+
+
 class NodeDef:
     def __init__(self, identifier, expression, info, pos):
         self.identifier = identifier
@@ -453,7 +461,7 @@ class NodeDef:
 
     def evaluate(self, environment):
         value = self.expression.evaluate(environment)
-        value.info = self.info
+        attachInfo(value, self.info)
         environment.put(self.identifier, value)
         import ckl.functions
         if isinstance(value, ckl.functions.FuncLambda):
@@ -478,7 +486,7 @@ class NodeDefDestructuring:
 
     def evaluate(self, environment):
         value = self.expression.evaluate(environment)
-        value.info = self.info
+        attachInfo(value, self.info)
         if not value.isList() and not value.isSet():
             raise CklRuntimeError(
                 ValueString("ERROR"),
